@@ -154,6 +154,7 @@ package yubiattest
 //@   loop 2:
 //@     invariant (len(serial) == 3 || len(serial) == 4) && len(dst) == 8 && fresh(arr(dst)) && off(dst) == 0
 //@     invariant dstidx == (8 - 2 * len(serial)) + 2 * (rangeindex#2 + 1)
+//@     invariant forall(j, 0 <= j && j < len(cert.Extensions), isSerialExt(cert, j) ==> len(cert.Extensions[j].Value) >= 2)
 //@     invariant forall(i, 0 <= i && i < dstidx, dst[i] == mhAt(elems(serial), off(serial), len(serial), i))
 //@     invariant exists(j, 0 <= j && j < len(cert.Extensions), isSerialExt(cert, j) &&
 //@       forall(k, j < k && k < len(cert.Extensions), !isSerialExt(cert, k)) &&
